@@ -569,9 +569,6 @@ func (ck *Checker) check(c *ctx, p prov, t *ast.Term, where string) *rej {
 				return unknown("re-used cut name passed as explicit self")
 			}
 		} else {
-			if reuse {
-				return unknown("cut re-using a live name with an axiomatic body")
-			}
 			var ns []ast.Nm
 			for _, n := range fv {
 				ns = append(ns, ast.N(n))
@@ -605,7 +602,23 @@ func (ck *Checker) check(c *ctx, p prov, t *ast.Term, where string) *rej {
 		if !ast.Geq(bodyTy.M, p.ty.M) {
 			return &rej{reason: Independence, site: site, detail: fmt.Sprintf("%s (mode %s) is weaker than the current provider (mode %s)", t.X.S, bodyTy.M, p.ty.M)}
 		}
-		if e := ck.check(left, prov{shadow: t.X.S, ty: bodyTy}, t.Body, where); e != nil {
+		if reuse && t.Body.Kind != ast.TCall {
+			// `x : T <- new B` where x is live and B mentions x. Lexically the x inside B is the old
+			// channel (B's own provider is `self`); Grits reads an x in a provider position of B as
+			// the new process. The verdict is definite only when both readings agree.
+			lex := ck.check(left.clone(), prov{ty: bodyTy}, t.Body, where)
+			gri := ck.check(left.clone(), prov{shadow: t.X.S, ty: bodyTy}, t.Body, where)
+			switch {
+			case lex != nil && lex.unknown:
+				return lex
+			case gri != nil && gri.unknown:
+				return gri
+			case (lex == nil) != (gri == nil):
+				return unknown("cut re-using a live name whose body mentions it in a provider position")
+			case lex != nil:
+				return lex
+			}
+		} else if e := ck.check(left, prov{shadow: t.X.S, ty: bodyTy}, t.Body, where); e != nil {
 			return e
 		}
 		c.bind(t.X.S, bodyTy)
